@@ -117,10 +117,7 @@ def check_ml(c, r, light=False):
                 bad.append(('nonzero-set', 'nonzero() is not the non-zero set of the dense Kronecker product'))
     # lower triangle
     exp_lt = [p for p in pos if p[1] <= p[0]]
-    if L == 1:
-        if not (err(r['nz_lt']) and r['nz_lt']['error'] == 'AssertionError'):
-            bad.append(('lower-tri-1d', 'lower_tri on one level should be refused (AssertionError), got %s' % str(r['nz_lt'])[:80]))
-    elif err(r['nz_lt']) or pairs(r['nz_lt']) != exp_lt:
+    if err(r['nz_lt']) or pairs(r['nz_lt']) != exp_lt:
         bad.append(('lower-tri-L%s' % ('nd' if L >= 4 else L), 'nonzero(lower_tri=True) is not the J<=I sub-list of the pattern'))
     # transposition
     if err(r['nz_T']) or pairs(r['nz_T']) != [(j, i) for (i, j) in pos]:
